@@ -8,6 +8,7 @@
 #include <map>
 #include <memory>
 #include <string>
+#include <utility>
 #include <type_traits>
 
 namespace sim
@@ -329,6 +330,34 @@ struct Codec<TrackedT<N, MO>>
         return x.id == MOVED32 ? V_MOVED : x.id;
     }
     static void assign(T& dst, std::uint64_t c) noexcept { dst = T(static_cast<std::uint32_t>(c)); }
+};
+
+// std::pair<u32,u32>: trivially copy/move *constructible* and trivially destructible but NOT trivially copyable
+// (user-provided assignment) -- the type class a wrong trait choice in the relocation paths mishandles
+using Pair32 = std::pair<std::uint32_t, std::uint32_t>;
+static_assert(std::is_trivially_copy_constructible_v<Pair32> && !std::is_trivially_copyable_v<Pair32>);
+template <>
+struct Codec<Pair32>
+{
+    using T = Pair32;
+    static constexpr bool TRACKED = false;
+    static constexpr bool MOVE_ONLY = false;
+    static constexpr bool IDENTITY_EQ = false;
+    static constexpr bool ALLOCATES = false;
+    static constexpr MovedState MOVED = MS_SAME;
+    static constexpr std::uint64_t canon(std::uint64_t v) noexcept { return v & 0xFFFFFFFFu; }
+    static T make(std::uint64_t c) noexcept
+    {
+        return T(static_cast<std::uint32_t>(c), static_cast<std::uint32_t>(c) ^ 0x5A5AA5A5u);
+    }
+    static std::uint64_t read(const T& x) noexcept
+    {
+        T tmp;
+        std::memcpy(static_cast<void*>(&tmp), static_cast<const void*>(&x), sizeof(T));
+        if ((tmp.first ^ 0x5A5AA5A5u) != tmp.second) return V_UNSPEC - 4;
+        return tmp.first;
+    }
+    static void assign(T& dst, std::uint64_t c) noexcept { dst = make(c); }
 };
 
 template <>
